@@ -245,8 +245,8 @@ class SumAggregator:
         for elem in elements:
             assert elem.ast_type == ASTType.BodyAggregateElement
             if elem.terms and len(elem.terms) > 0:
-                if not self._element_passes(elem, elements):
-                    newelements.append(elem)
+                if not self._element_passes(elem, elements) or elem.terms[0] in (outer_vars or set()):
+                    newelements.append(elem)  # also if the weight is fixed from outside: it is no local variable then
                     continue
 
                 trigger = self._get_trigger(elem.terms[0], elem.condition)
